@@ -296,6 +296,111 @@ theorem C16_with_own_fields_identity (cal : CalId) (hne : cal ≠ .iso8601) (iso
   unfold plainDateFromPartialCal at h
   simpa [byCode, CalPartial.isEmpty] using h
 
+/-- A year-month built by `yearMonthNew` from a valid ISO date under constrain is that date (or a RangeError). -/
+theorem yearMonthNew_valid (y m d : Int) (hv : Greg.Valid y m d) (r : IsoDate)
+    (h : yearMonthNew y m (some d) .constrain = .ok r) : r = ⟨y, m, d⟩ := by
+  unfold yearMonthNew at h
+  rw [Option.getD_some, regulate_constrain] at h
+  obtain ⟨h1, h2, h3, h4⟩ := hv
+  have e1 : clamp m 1 12 = m := by unfold clamp; split <;> (try split) <;> omega
+  rw [e1] at h
+  have e2 : clamp d 1 (Greg.dim y m) = d := by unfold clamp; split <;> (try split) <;> omega
+  rw [e2] at h
+  simp only [Out.bind_ok] at h
+  split at h
+  · cases h; rfl
+  · cases h
+
+/-- **C16 (the year-month of a date is the first day of its calendar month)**: whenever `to_plain_year_month`
+    succeeds for a date of a modelled non-ISO calendar, the ISO reference date it stores is a day whose calendar
+    fields are the date's year, the date's month code, and day 1 (`japanese`: from 1 CE). -/
+theorem C16_year_month_first_of_month (cal : CalId) (hne : cal ≠ .iso8601) (iso : IsoDate) (hr : InRange iso)
+    (hj : cal = .japanese → 1 ≤ iso.year) (f : CalFields) (hf : fields cal iso = some f) (r : IsoDate)
+    (h : dateToYearMonthCal cal f = .ok r) :
+    ∃ g, fields cal r = some g ∧ g.year = f.year ∧ g.monthCode = f.monthCode ∧ g.day = 1 := by
+  obtain ⟨hv, _⟩ := fields_code_shape cal iso hr f hf
+  have hyb := fields_year_bound cal iso hr f hf
+  have hg : ¬ (f.year < -MAX_CALENDAR_YEAR ∨ f.year > MAX_CALENDAR_YEAR) := by unfold MAX_CALENDAR_YEAR; omega
+  have hm : mergeFieldsCal f ⟨none, none, none, none, none, none⟩ = byCode f := rfl
+  unfold dateToYearMonthCal yearMonthFromPartialCal at h
+  rw [hm] at h
+  have hres : resolveEraYear cal (byCode f) = .ok (none, f.year) := rfl
+  have hcode : resolveCode cal (byCode f) = .ok f.monthCode := by simp [resolveCode, byCode, hv]
+  simp only [hres, hcode, Out.bind_ok, hg, if_false] at h
+  by_cases hiso : cal.isoBased = true
+  · rw [fields_iso cal hiso] at hf
+    cases hf
+    obtain ⟨v1, v2, v3, v4⟩ := hr.1
+    have hv1 : Greg.Valid iso.year iso.month 1 := ⟨v1, v2, by omega, by omega⟩
+    have hy : (isoFields cal iso.year iso.month iso.day).year = (isoFields cal iso.year iso.month 1).year := by
+      simp [isoFields, yearInfo_year]
+    have hc : (isoFields cal iso.year iso.month iso.day).monthCode = (isoFields cal iso.year iso.month 1).monthCode := rfl
+    have hlib : fromCodes cal none (isoFields cal iso.year iso.month iso.day).year
+        (isoFields cal iso.year iso.month iso.day).monthCode 1 = some ⟨iso.year, iso.month, 1⟩ := by
+      rw [hy, hc]
+      by_cases hjp : cal = .japanese
+      · subst hjp; exact lib_year_japanese _ _ _ hv1 (hj rfl)
+      · have : cal = .gregory ∨ cal = .buddhist ∨ cal = .roc := by
+          cases cal <;> simp [CalId.isoBased] at hiso hne hjp ⊢
+        exact lib_year_iso cal this _ _ _ hv1
+    rw [hlib] at h
+    have := yearMonthNew_valid _ _ _ hv1 r h
+    subst this
+    exact ⟨isoFields cal iso.year iso.month 1, fields_iso cal hiso _, hy.symm, rfl, rfl⟩
+  · cases hc : cal.arith with
+    | none => simp [fields, hiso, hc] at hf
+    | some c =>
+      rw [fields_arith cal c hc] at hf
+      cases hf
+      have hl := arith_lawful cal c hc
+      have hW := inRange_inDayWin iso hr
+      obtain ⟨⟨w1, w2, w3, w4⟩, ht⟩ := ofDay_spec hl _ hW
+      -- name the calendar date of the day
+      generalize hymd : c.ofDay (Greg.dayNumber iso.year iso.month iso.day) = ymd at w1 w2 w3 w4 ht
+      obtain ⟨y, m, d⟩ := ymd
+      simp only at w1 w2 w3 w4 ht
+      have hfy : (arithFields cal c (Greg.dayNumber iso.year iso.month iso.day)).year = y := by
+        have hb : cal ≠ .buddhist := by intro hb; subst hb; simp [CalId.arith] at hc
+        simp [arithFields, hymd, yearInfo_year, hb]
+      have hfc : (arithFields cal c (Greg.dayNumber iso.year iso.month iso.day)).monthCode = ⟨m, false⟩ := by
+        simp [arithFields, hymd]
+      rw [hfy, hfc] at h
+      have hlib : fromCodes cal none y ⟨m, false⟩ 1 = arithFromCodes c y ⟨m, false⟩ 1 := by
+        cases cal <;> simp [CalId.arith] at hc <;> subst hc <;> simp [fromCodes]
+      rw [hlib] at h
+      unfold arithFromCodes at h
+      simp only [Bool.false_eq_true, false_or] at h
+      rw [if_neg (by omega), if_neg (by omega)] at h
+      -- the first day of the month, as an epoch day
+      have hn1 : c.toDay y m 1 = Greg.dayNumber iso.year iso.month iso.day - (d - 1) := by
+        rw [← ht]; unfold ACal.toDay; omega
+      cases hio : isoOfDay (c.toDay y m 1) with
+      | none => rw [hio] at h; cases h
+      | some r0 =>
+        rw [hio] at h
+        simp only at h
+        unfold isoOfDay at hio
+        split at hio
+        · rename_i hwin
+          cases hio
+          have hW1 : InDayWin (c.toDay y m 1) := by unfold InDayWin; unfold MAX_EPOCH_DAYS at hwin; omega
+          obtain ⟨y', m', d', he, hv', _, hd'⟩ := C01_fromDays _ hW1
+          rw [he] at h
+          simp only at h
+          have := yearMonthNew_valid _ _ _ hv' r h
+          subst this
+          refine ⟨arithFields cal c (c.toDay y m 1), ?_, ?_, ?_, ?_⟩
+          · rw [fields_arith cal c hc]; simp only [hd']
+          all_goals
+            have hod := ofDay_toDay hl y m 1 ⟨w1, w2, by omega, by omega⟩ hW1
+            have hb : cal ≠ .buddhist := by intro hb; subst hb; simp [CalId.arith] at hc
+            simp [arithFields, hod, yearInfo_year, hb, hymd]
+        · cases hio
+
+/-- Non-vacuity: 2020-03-15 is 25 Esfand 1398 AP; its year-month is stored as 2020-02-20, 1 Esfand 1398. -/
+example : (fields .persian ⟨2020, 3, 15⟩).map (fun f => (f.year, f.monthCode, f.day, dateToYearMonthCal .persian f)) =
+    some (1398, ⟨12, false⟩, 25, .ok ⟨2020, 2, 20⟩) := by decide +kernel
+
 /-- The exception, as a fact about the code: a `japanese` date of year 0 reports year 0, and the library refuses a
     non-positive year given without an era, so the year route fails (the era route works, by the theorem above). -/
 theorem C16_japanese_nonpositive_year :
@@ -427,3 +532,4 @@ end TemporalModel
 #print axioms TemporalModel.Cal.C16_identifier_canonical
 #print axioms TemporalModel.Cal.C16_identifier_roundtrip
 #print axioms TemporalModel.Cal.C16_with_own_fields_identity
+#print axioms TemporalModel.Cal.C16_year_month_first_of_month
